@@ -608,3 +608,30 @@ Proof.
   - apply orientation_dev_rigid; assumption.
   - intros Hu v. apply (orientation_rigid p q q' ref t g); assumption.
 Qed.
+
+(* ------------------------------------------------------------------ groups fitted through a fitting group *)
+Lemma fit_general_self (q : Q4) ref g : fit_general Rops true q ref g g = fit_positions Rops q ref g.
+Proof. unfold fit_general, fit_positions, centered. cbv zeta. rewrite map_map. reflexivity. Qed.
+Lemma fit_general_rigid (M : M3) (q q' : Q4) ref t fitg g : proper_rotation M -> fitg <> [] ->
+  unique_optimum (fit_pairs Rops ref fitg) ->
+  is_optimal q (fit_pairs Rops ref fitg) -> is_optimal q' (fit_pairs Rops ref (shift_group t (rot_group M fitg))) ->
+  fit_general Rops true q' ref (shift_group t (rot_group M fitg)) (shift_group t (rot_group M g)) = fit_general Rops true q ref fitg g.
+Proof.
+  intros HM Hg Hu Hq Hq'. destruct (rotation_is_quaternion M HM) as [p [Hp HpM]]. subst M.
+  assert (Hg' : rot_group (rotation_matrix Rops p) fitg <> []) by (destruct fitg; [congruence | discriminate]).
+  rewrite fit_pairs_shift, fit_pairs_rot in Hq' by exact Hg'.
+  pose proof (optimal_unrot_first p q' _ Hp Hq') as Hq'p.
+  pose proof (Hu _ _ Hq'p Hq) as HMq.
+  unfold fit_general. cbv zeta. rewrite cog_shift, cog_rot by exact Hg'.
+  unfold shift_group, rot_group. rewrite !map_map. apply map_ext. intros a. cbn [a_pos shift_atom rot_atom].
+  f_equal. rewrite v3sub_shift, mat_vec_sub.
+  change (mat_vec Rops (rotation_matrix Rops p) (v3sub Rops (a_pos a) (cog Rops fitg))) with (rotate Rops p (v3sub Rops (a_pos a) (cog Rops fitg))).
+  rewrite <- rotate_qmul. apply rotate_matrix_eq. exact HMq.
+Qed.
+(* centre only (rotateToReference off): translations of all atoms *)
+Lemma fit_general_center_shift (q : Q4) ref t fitg g : fitg <> [] ->
+  fit_general Rops false q ref (shift_group t fitg) (shift_group t g) = fit_general Rops false q ref fitg g.
+Proof.
+  intros Hg. unfold fit_general. cbv zeta. rewrite cog_shift by exact Hg. unfold shift_group. rewrite map_map.
+  apply map_ext. intros a. cbn [a_pos shift_atom]. rewrite v3sub_shift. reflexivity.
+Qed.
